@@ -81,6 +81,7 @@ struct Ctx {
   int holder[kMaxObj] = {-1, -1};
   int count[kMaxObj] = {0, 0}, init[kMaxObj] = {0, 0}, rels[kMaxObj] = {0, 0}, acqs[kMaxObj] = {0, 0};
   std::set<int> mset; int cw = -1;   // outstanding conditions, registered condition waiter
+  bool pre_posted = false;           // kAll: an add()ed value was posted (and struck off) while nobody was inside wait(), and no wait() has completed since
   int next_val = 0;
   uint64_t marks = 0, seq = 0;   // marks: bumped by every wrapper entry/exit, main op and pass boundary
   // statistics
@@ -172,14 +173,21 @@ void do_bpost(Ctx &c, int by) {
 void do_cpost(Ctx &c, int by, int v) {
   (void)by;
   ++c.marks;
+  bool waiting = c.cw >= 0 && c.R[c.cw].call == C_CWAIT;
   if (c.mset.count(v)) {
+    // the code records a post of an add()ed value whether or not a routine is inside wait() already (kAll: the value is struck off, kAny: the set is cleared)
+    if (!waiting) c.info->cls(c.logic_any ? "cond_any_post_of_added_value_before_wait" : "cond_all_post_of_added_value_before_wait");
     bool sat;
     if (c.logic_any) { c.mset.clear(); sat = true; } else { c.mset.erase(v); sat = c.mset.empty(); }
+    if (!waiting && !c.logic_any) c.pre_posted = true;
     if (sat) {
-      if (c.cw >= 0 && c.R[c.cw].call == C_CWAIT) { c.R[c.cw].owed_c = true; c.info->cls("cond_satisfied_with_waiter"); }
-      c.cw = -1;
+      if (waiting) {
+        c.R[c.cw].owed_c = true; c.info->cls("cond_satisfied_with_waiter");
+        if (c.pre_posted) c.info->cls("cond_all_completed_by_posts_before_and_during_wait");
+      } else c.info->cls("cond_satisfied_before_anybody_waits");
+      c.cw = -1; if (waiting) c.pre_posted = false;
     }
-  }
+  } else c.info->cls(c.mset.empty() ? "cond_post_with_nothing_added" : "cond_post_of_value_not_added");
   c.cond->post(v);
 }
 
@@ -301,7 +309,7 @@ int exec_step(Ctx &c, int r, Scheduler &sch, const Step &st) {
       R.owed_c = false;
       // a refused wait() leaves the condition set alone; an accepted one that ends (satisfied elsewhere excepted) withdraws it — also
       // when the routine was cancelled already and the accepted wait() fails at once
-      if (c.cw == r) { c.cw = -1; if (blocked || ok || pre) c.mset.clear(); }
+      if (c.cw == r) { c.cw = -1; if (blocked || ok || pre) { c.mset.clear(); c.pre_posted = false; } }
       if (ok && R.must_fail_seq == sq) c.fail(fmt("routine %d was cancelled while suspended in cond.wait, but the call returned success", r));
       if (!ok && !sch.isCanceled()) { c.info->cls("cond_wait_refused"); return ST_REFUSED; }
       return ok ? ST_OK : ST_FAIL; }
@@ -521,7 +529,7 @@ std::string run(const Scenario &s, CaseInfo &info) {
   info.cls_if(c.idle_checks >= 3, "three_or_more_idle_checks");
   bool nt = false;
   for (auto p : info.classes)
-    if (!strcmp(p, "chan_two_waiters_two_posts") || !strcmp(p, "sem_two_waiters_two_posts") || !strcmp(p, "mutex_retaken_before_woken_waiter_ran") || !strcmp(p, "cancel_of_queued_waiter") || !strcmp(p, "cancel_of_unstarted_join_target") || !strcmp(p, "blocking_call_entered_after_cancellation")) nt = true;
+    if (!strcmp(p, "chan_two_waiters_two_posts") || !strcmp(p, "sem_two_waiters_two_posts") || !strcmp(p, "mutex_retaken_before_woken_waiter_ran") || !strcmp(p, "cancel_of_queued_waiter") || !strcmp(p, "cancel_of_unstarted_join_target") || !strcmp(p, "blocking_call_entered_after_cancellation") || !strcmp(p, "cond_all_completed_by_posts_before_and_during_wait")) nt = true;
   info.nontrivial = nt;
   // ---- tear down (cleanup() has run; nothing is left inside the scheduler)
   for (int i = 0; i < kMaxObj; ++i) { c.ch[i].reset(); c.mx[i].reset(); c.sem[i].reset(); }
@@ -549,7 +557,7 @@ Scenario expand(int64_t seed) {
   mk(CFG, {n, nch, nmx, nsem, pick({{5, 0}, {2, 1}, {1, 2}}), pick({{5, 0}, {2, 1}, {1, 2}}), rng(0, 1)});
   // theme: the primitive most routines of this case work on (so that waiters and posters meet)
   enum { T_CHAN, T_SEM, T_MUTEX, T_BCAST, T_COND, T_JOIN, T_MIX };
-  int theme = (int)pick({{5, T_CHAN}, {4, T_SEM}, {5, T_MUTEX}, {2, T_BCAST}, {3, T_COND}, {5, T_JOIN}, {4, T_MIX}});
+  int theme = (int)pick({{5, T_CHAN}, {4, T_SEM}, {5, T_MUTEX}, {2, T_BCAST}, {5, T_COND}, {5, T_JOIN}, {4, T_MIX}});
   auto obj = [&]() -> int64_t { return pick({{5, 0}, {1, 1}}); };
   auto other = [&](int r) -> int64_t { int64_t t = rng(0, n - 2); return t >= r ? t + 1 : t; };
   auto yields = [&](int r, int64_t k) { for (int64_t i = 0; i < k; ++i) mk(YIELD, {r}); };
@@ -570,6 +578,32 @@ Scenario expand(int64_t seed) {
     modes[pj_t] = pj_create == 0 ? 1 : 2; late = 1; late_r = pj_t; pj_rn = pj_create == 2;
     pj_who = pj_create == 2 ? (int)pick({{5, 1}, {1, 4}}) : (int)pick({{4, 1}, {4, 2}, {2, 3}, {1, 4}});   // 1 = routine cancels, 2 = main cancels, 3 = main resumes, 4 = nobody
   }
+  // condition waiter: add() calls and wait() are separate steps with yields (rarely another blocking op) in between, several rounds on the one
+  // Condition object, so that posts can arrive before add, between add and wait, during wait and after wait returned
+  auto cond_gap = [&](int r) {
+    switch (pick({{3, 0}, {5, 1}, {2, 2}, {1, 3}, {1, 4}})) {
+      case 1: mk(YIELD, {r}); break;
+      case 2: yields(r, 2); break;
+      case 3: mk(RECV, {r, 0}); break;
+      case 4: mk(LOCK, {r, 0}); mk(YIELD, {r}); mk(UNLOCK, {r, 0}); break;
+      default: break;
+    }
+  };
+  int64_t pa = rng(0, 2), pb = (pa + 1 + rng(0, 1)) % 3;   // the two values of the planned shape
+  auto cond_waiter = [&](int r, int rounds, bool planned_vals) {
+    for (int k = 0; k < rounds; ++k) {
+      int64_t a = rng(0, 2), b = (a + 1 + rng(0, 1)) % 3;
+      if (planned_vals && (k == 0 || rng(0, 1))) { a = pa; b = pb; }
+      int nadd = (int)pick({{2, 1}, {6, 2}, {2, 3}});
+      if (rng(0, 9) == 0) cond_gap(r);
+      mk(CADD, {r, a}); cond_gap(r);
+      if (nadd >= 2) { mk(CADD, {r, b}); cond_gap(r); }
+      if (nadd >= 3) { mk(CADD, {r, rng(0, 3)}); if (rng(0, 1)) cond_gap(r); }
+      if (rng(0, 11)) mk(CWAIT, {r});   // rarely a round without wait(): what was added stays for the next round
+      if (rng(0, 2) == 0) mk(YIELD, {r});
+    }
+  };
+  bool pcond = theme == T_COND && rng(0, 2) != 0;   // planned: routine 0 waits (1-3 rounds), routine 1 posts every value at some point
   for (int r = 0; r < n; ++r) {
     int64_t style = pick({{5, 0}, {3, 1}, {3, 2}, {1, 3}});
     mk(RT, {r, modes[r], style});
@@ -587,6 +621,19 @@ Scenario expand(int64_t seed) {
         default: mk(WAIT, {r}); break;
       }
     };
+    if (pcond && r == 0) { cond_waiter(r, (int)pick({{3, 1}, {3, 2}, {1, 3}}), true); tail(); continue; }
+    if (pcond && r == 1) {
+      yields(r, pick({{3, 0}, {3, 1}, {1, 2}}));
+      int64_t cnt = pick({{2, 2}, {4, 3}, {3, 5}, {1, 8}}), first = rng(0, 2);
+      bool ab = rng(0, 2) != 0;   // mostly: first the two planned values (in either order), then the cycle
+      if (ab && rng(0, 1)) std::swap(pa, pb);
+      for (int64_t i = 0; i < cnt; ++i) {
+        mk(CPOST, {r, ab && i == 0 ? pa : ab && i == 1 ? pb : rng(0, 3) ? (first + i) % 3 : rng(0, 3)});   // later posts cycle through the values so that every condition gets posted sooner or later
+        yields(r, pick({{2, 0}, {4, 1}, {2, 2}}));
+        if (rng(0, 11) == 0) mk(SEND, {r, 0});
+      }
+      continue;
+    }
     if (pjoin && r == 0) {
       if (pj_create) mk(CREATE, {r, pj_t, pj_rn});
       mk(JOIN, {r, pj_t});
@@ -647,8 +694,8 @@ Scenario expand(int64_t seed) {
           else { yields(r, rng(1, 3)); mk(BPOST, {r}); if (rng(0, 2) == 0) { yields(r, rng(0, 2)); mk(BPOST, {r}); } }
           break;
         case T_COND:
-          if (rng(0, 2) == 0) { int64_t cnt = rng(1, 2); for (int64_t i = 0; i < cnt; ++i) mk(CADD, {r, rng(0, 2)}); mk(CWAIT, {r}); if (rng(0, 2) == 0) { mk(CADD, {r, rng(0, 2)}); mk(CWAIT, {r}); } }
-          else { yields(r, rng(0, 2)); int64_t cnt = rng(1, 3); for (int64_t i = 0; i < cnt; ++i) { mk(CPOST, {r, rng(0, 2)}); if (rng(0, 2) == 0) mk(YIELD, {r}); } }
+          if (rng(0, 2) == 0) cond_waiter(r, (int)pick({{3, 1}, {2, 2}, {1, 3}}), false);
+          else { yields(r, rng(0, 2)); int64_t cnt = rng(1, 4); for (int64_t i = 0; i < cnt; ++i) { mk(CPOST, {r, rng(0, 2)}); if (rng(0, 1)) yields(r, rng(1, 2)); } }
           break;
         default:   // T_JOIN: join / create / cancel / plain wait
           switch (pick({{4, 0}, {late ? 4 : 1, 1}, {4, 2}, {3, 3}})) {
@@ -702,7 +749,7 @@ SubDef def = [] {
   SubDef d; d.name = "coroutines";
   d.op_names.assign(kOpNames, kOpNames + NOPS);
   d.op_arity.assign(kArity, kArity + NOPS);
-  d.nt_rule = "two or more routines suspended on one channel / semaphore while two posts were issued before any of them ran, or a mutex re-taken between the unlock that woke a waiter and the waiter running, or a cancel of a routine queued in recv / lock / acquire, or a cancel of a never-started routine while another routine is suspended in join() on it, or a blocking call that would have to suspend entered by a routine that had already been cancelled";
+  d.nt_rule = "two or more routines suspended on one channel / semaphore while two posts were issued before any of them ran, or a mutex re-taken between the unlock that woke a waiter and the waiter running, or a cancel of a routine queued in recv / lock / acquire, or a cancel of a never-started routine while another routine is suspended in join() on it, or a blocking call that would have to suspend entered by a routine that had already been cancelled, or a kAll condition completed by one post before the waiter reached wait() and the rest while it waited";
   d.run = run;
 #ifndef VERIF_ENGINE_FUZZ
   d.gen = [] {
